@@ -160,7 +160,21 @@ func (s String) Less(v Value) bool {
 		return s.Kind() < v.Kind()
 	}
 
-	return s.String() < v.(String).String()
+	// Compare offsets, then runes: string(s.s) would conflate holes (-1) with U+FFFD.
+	t := v.(String)
+	if s.offset != t.offset {
+		return s.offset < t.offset
+	}
+	n := len(s.s)
+	if n > len(t.s) {
+		n = len(t.s)
+	}
+	for i, r := range s.s[:n] {
+		if r != t.s[i] {
+			return r < t.s[i]
+		}
+	}
+	return len(s.s) < len(t.s)
 }
 
 // Negate returns {(negateTag): s}.
